@@ -25,6 +25,14 @@ DIRECTED = [
      [{'all': False, 'check': 'CheckNonceMSB', 'batch': ['s1', 's2', 's3']},
       {'all': True, 'check': 'ALL', 'batch': ['s5', 's1', 's2', 's3', 's4']},
       {'all': False, 'check': 'CheckNonceCommonPrefix', 'batch': ['s1', 's3', 's2', 's4']}]),
+    # the searches share one table per curve: a key that occurs twice stays unaccused after a search for weak private keys; issuer keys with
+    # the coordinates of another curve's (invalid) key keep their own verdict whichever comes first
+    ('ec', 'duplicates-after-a-private-key-search', {'s1': 'healthy', 's2': 'healthy', 's3': 'copy1', 's4': 'farA', 's5': 'farB'},
+     [{'all': False, 'check': 'CheckWeakECPrivateKey', 'batch': ['s1', 's2']}, {'all': False, 'check': 'CheckECKeySmallDifference', 'batch': ['s1', 's2', 's3']},
+      {'all': False, 'check': 'CheckECKeySmallDifference', 'batch': ['s4', 's3', 's5', 's1']}]),
+    ('ecdsa', 'same-coordinates-other-curve-first', {'s1': 'healthyA', 's2': 'samexy', 's3': 'healthyB'},
+     [{'all': False, 'check': 'CheckIssuerKey', 'batch': ['s2', 's1', 's3'], 'keep_order': True},
+      {'all': True, 'check': 'ALL', 'batch': ['s2', 's3', 's1'], 'keep_order': True}]),
     ('ecdsa', 'behind-u2f-issuer', {'s1': 'u2fA', 's2': 'healthyA', 's3': 'healthyk1', 's4': 'healthyB'},
      [{'all': False, 'check': 'CheckCr50U2f', 'batch': ['s1', 's2', 's3', 's4']}, {'all': True, 'check': 'ALL', 'batch': ['s3', 's1', 's2']}]),
     ('ecdsa', 'mixed', {'s1': 'healthyA', 's2': 'msbA', 's3': 'healthy384', 's4': 'healthyB'},
